@@ -52,7 +52,7 @@ def make_plan(seed: int, tier: str, opts: dict) -> dict:
     variants = []
     for _ in range(opts.get("variants", 2)):
         variants.append(dict(mode=r.choice(compiled.MODES), prune=r.random() < 0.5, sizes=r.choice(["auto", "auto", "min", "min", "min+1", "large"]), extra_padding=r.choice([0, 0, 0, 1, 3]),
-                             starting_step=r.choice([0, 0, "mid"]), api=r.choice(["rollout_carry", "run_jit", "gym_jit"]), episode=r.randrange(n_eps)))
+                             starting_step=r.choice([0, 0, "mid"]), api=r.choice(["rollout_carry", "run_jit", "gym_jit", "gym_override_stale"]), episode=r.randrange(n_eps)))
     for ep in eps:
         ep["until_active"] = True
     return dict(spec=spec, seed=seed, episodes=eps, clock="sim", line_rate=0.0, variants=variants, train=train)
@@ -144,9 +144,23 @@ def run_plan(plan: dict, replay=None) -> dict:
         # oracle A: dynamic, attributable payloads
         probes.clear_trace()
         n = max(1, G.max_steps - s0)
-        out, _ = compiled.drive(G, cgs, var["api"], n)
+        sup_overridden = set()
+        if var["api"] == "gym_override_stale":
+            # gym-style driving in which the user overrides every supervisor step with its own (step_state, output); the step_state it passes
+            # carries a stale bookkeeping seq (a stateless agent re-using the reset() state / a freshly built StepState): rex must not trust it
+            import jax.numpy as jnp
+
+            fr, fs = jax.jit(G.reset), jax.jit(G.step)
+            out, ss = fr(cgs)
+            for i_ in range(n):
+                new_ss, o_ = probes.user_override(sup, ss)
+                sup_overridden.add(int(onp.asarray(ss.seq)))
+                out, ss = fs(out, new_ss.replace(seq=jnp.int32(0)), o_)
+            jax.block_until_ready(out)
+        else:
+            out, _ = compiled.drive(G, cgs, var["api"], n)
         evs = probes.take_trace()
-        produced = {}
+        produced = {names.index(sup_name): set(sup_overridden)} if sup_overridden else {}
         for ev in evs:
             produced.setdefault(ev["node"], set()).add(ev["seq"])
         for ev in evs:
